@@ -1,5 +1,6 @@
 #!/bin/bash
 # run every collected mutant (/tmp/wtout/*/m*/patch.diff or /verif/seeded/*/patch.diff) against the given properties (default: its own)
+mkdir -p /tmp/trymut_verif; cp /verif/baseline_symbols.json /tmp/trymut_verif/ 2>/dev/null; [ -f /tmp/trymut_verif/known_findings.json ] || echo "{\"findings\":[]}" > /tmp/trymut_verif/known_findings.json
 props_all="$*"
 for d in /verif/seeded/*; do
   [ -f $d/patch.diff ] || continue
